@@ -1232,3 +1232,43 @@ func ruleSnapshotStamp(c *Ctx, ruleStamp, ruleReset string) {
 	c.CallSites(n + m)
 	c.Floor(ruleReset, 1)
 }
+
+// ruleChildCreateAsksParent (C15.PARENTROW): Create through a child store asks whether the parent's row for the
+// id already exists before it writes. It tests only the store's own bucket today, so a child created over the
+// id of an existing parent-only entity rewrites the parent's fields and runs the parent's constraints as a
+// create: the old values are never read, the parent's unique and set indexes keep them as well, and a later
+// delete leaves them behind. (Genuine defect on the pinned tree, listed in known_findings.json.)
+func ruleChildCreateAsksParent(c *Ctx, rule string) {
+	p := c.P
+	fn := p.SSAFunc(p.Method("boltz", "BaseStore", "Create"))
+	c.Analysed(FnName(fn))
+	parentFld := p.Field("boltz", "BaseStore", "parent")
+	asks := false
+	seen := map[*ssa.Function]bool{}
+	var walk func(f *ssa.Function, d int)
+	walk = func(f *ssa.Function, d int) {
+		if seen[f] || d > 2 {
+			return
+		}
+		seen[f] = true
+		for _, g := range allFuncsWithAnon(f) {
+			for _, call := range callsIn(g) {
+				cc := call.Common()
+				if cc.IsInvoke() {
+					switch cc.Method.Name() {
+					case "IsEntityPresent", "FindById", "GetEntityBucket", "LoadEntity", "LoadById":
+						if fld, _ := loadedField(cc.Value); sameVar(fld, parentFld) {
+							asks = true
+						}
+					}
+					continue
+				}
+				if sc := cc.StaticCallee(); sc != nil && sc.Pkg == fn.Pkg && len(sc.Blocks) > 0 {
+					walk(sc, d+1)
+				}
+			}
+		}
+	}
+	walk(fn, 0)
+	c.Check(asks, rule, FnName(fn)+": parent row of a child create", p.Pos(fn.Pos()), "a create through a child store asks whether the parent's row already exists", "Create tests only the store's own bucket for the id and hands create=true to the parent's indexing context: a child created over the id of an existing parent-only entity rewrites the parent's fields without the old values ever being read, so the parent's unique and set indexes keep the old entries as well (CheckIntegrity: `references <id> for value <old> which should be <new>`) and a later delete leaves them behind (ValidateDeleted finds the id under the old index value)")
+}
